@@ -633,6 +633,16 @@ impl<'env> Executor<'env> {
                     }
                     let mut l = state.ctx.pop_frame().current_loop.unwrap();
                     if let Some((target, end_capture)) = l.current_recursion_jump.take() {
+                        // a loop with an else block has just pushed its
+                        // "did not iterate" flag for the test that follows the
+                        // loop.  A recursive invocation returns to its call
+                        // site instead, so the flag must not stay behind.
+                        if matches!(
+                            pc.checked_sub(1).and_then(|x| state.instructions.get(x)),
+                            Some(Instruction::PushDidNotIterate)
+                        ) {
+                            stack.pop();
+                        }
                         pc = target;
                         if end_capture {
                             stack.push(out.end_capture(state.auto_escape));
